@@ -190,8 +190,9 @@ static void case_c03(const drvargs_t *a,long id){
 }
 
 /* ------------------------------------------------------------------ C12 */
-static const char *scnname[]={"open","open+read-all","pcm_seek","pcm_seek_page","time_seek","time_seek_page","raw_seek","pcm_seek_lap","time_seek_page_lap","raw_seek_lap","halfrate","crosslap","read-after-seek"};
-#define NSCN 13
+static const char *scnname[]={"open","open+read-all","pcm_seek","pcm_seek_page","time_seek","time_seek_page","raw_seek","pcm_seek_lap","time_seek_page_lap","raw_seek_lap","halfrate","crosslap","read-after-seek",
+  "test+test_open","int-reads-and-seeks","time_seek_lap","pcm_seek_page_lap"};
+#define NSCN 17
 typedef struct { int scn; ogg_int64_t target; double ttarget; long rawtarget; } scn_t;
 /* runs the scenario body on an opened handle; returns the library's return code of the scenario's main call(s) (first failure) */
 static long scn_body(OggVorbis_File *vf,OggVorbis_File *other,const scn_t *S,long *nread_samples,memsrc_t *ms,long *fired_main){
@@ -209,6 +210,13 @@ static long scn_body(OggVorbis_File *vf,OggVorbis_File *other,const scn_t *S,lon
   case 9: ret=ov_raw_seek_lap(vf,S->rawtarget); break;
   case 10: ret=ov_halfrate(vf,1); if(ret==0){ long g=ov_read_float(vf,&pcm,512,&bs); if(g<0) ret=g; ov_halfrate(vf,0); } break;
   case 11: ret= other? ov_crosslap(other,vf):0; break;
+  case 13: return 0;   /* the open itself is the scenario (ov_test_callbacks + ov_test_open, see the caller) */
+  case 14: { /* 16-bit reads interleaved with seeks: the first failing call decides */
+      static char ib[4096]; ret=0;
+      for(int k=0;k<4 && ret>=0;k++){ long g=ov_read(vf,ib,sizeof ib,0,2,1,&bs); if(g<0){ ret=g; break; } *nread_samples+=g; ret=ov_pcm_seek(vf,(S->target*(k+1))/5); }
+      *fired_main=0; return ret; }   /* mixes reads (EOF allowed) and seeks: judged for safety, close, termination and recovery only */
+  case 15: ret=ov_time_seek_lap(vf,S->ttarget); break;
+  case 16: ret=ov_pcm_seek_page_lap(vf,S->target); break;
   default: ret=ov_pcm_seek(vf,S->target); *fired_main=ms->f_fired-f0; if(ret==0){ for(int k=0;k<3;k++){ long g=ov_read_float(vf,&pcm,1024,&bs); if(g<0){ ret=g; break; } *nread_samples+=g; } } break;
   }
   return ret;
@@ -255,7 +263,9 @@ static void case_c12(const drvargs_t *a,long id){
   long Kopen[3],Kall[3]; long clean_ret; long clean_n;
   {
     H h,o; int ret; memset(&h,0,sizeof h); memset(&o,0,sizeof o);
-    memsrc_init(&h.ms,s.p,s.n,1); ret=ov_open_callbacks(&h.ms,&h.vf,NULL,0,memsrc_cb(&h.ms));
+    memsrc_init(&h.ms,s.p,s.n,1);
+    if(scn==13){ ret=ov_test_callbacks(&h.ms,&h.vf,NULL,0,memsrc_cb(&h.ms)); if(ret==0) ret=ov_test_open(&h.vf); }
+    else ret=ov_open_callbacks(&h.ms,&h.vf,NULL,0,memsrc_cb(&h.ms));
     if(ret){ res_viol("C12","harness:clean-open-failed","%d: %s",ret,desc); ref_free(&F); res_end(); buf_free(&s); return; }
     Kopen[0]=h.ms.n_read; Kopen[1]=h.ms.n_seek; Kopen[2]=h.ms.n_tell;
     if(scn==11){ memsrc_init(&o.ms,s.p,s.n,1); ov_open_callbacks(&o.ms,&o.vf,NULL,0,memsrc_cb(&o.ms)); float **pcm; int bs; ov_read_float(&o.vf,&pcm,300,&bs); o.open=1; }
@@ -266,7 +276,7 @@ static void case_c12(const drvargs_t *a,long id){
   long lim=a->thorough?4000:300; long nruns=0, nerr=0, nrecov=0, swallowed=0;
   for(int fk=1;fk<F_NKINDS;fk++){
     int cls= fk==F_SEEK_FAIL?1: fk==F_TELL_FAIL?2:0;
-    long k0= scn<=1?0:Kopen[cls], k1=Kall[cls]+ (scn<=1?2:1);          /* open scenarios enumerate the open's callbacks; others only the body's */
+    long k0= (scn<=1||scn==13)?0:Kopen[cls], k1=Kall[cls]+ ((scn<=1||scn==13)?2:1);          /* open scenarios enumerate the open's callbacks; others only the body's */
     long span=k1-k0; if(span<=0) continue; long step= span>lim? (span+lim-1)/lim : 1;
     for(int persist=0;persist<2;persist++) for(long k=k0;k<k1;k+=step){
       long kk= step>1? k+(long)rng_below(&rs,(uint32_t)step) : k; if(kk>=k1) kk=k1-1;
@@ -274,7 +284,11 @@ static void case_c12(const drvargs_t *a,long id){
       { const char *only=getenv("C12_ONLY"); if(only){ int ofk,op_; long ok_; if(sscanf(only,"%d,%ld,%d",&ofk,&ok_,&op_)==3 && (ofk!=fk||ok_!=kk||op_!=persist)) continue; } }
       ctx_mark("%s %s@%ld %s",scnname[scn],fault_name(fk),kk,persist?"persistent":"one-shot");
       memsrc_init(&h.ms,s.p,s.n,1); memsrc_fault(&h.ms,fk,kk,persist);
-      oret=ov_open_callbacks(&h.ms,&h.vf,NULL,0,memsrc_cb(&h.ms)); nruns++; res_eval(1);
+      if(scn==13){ oret=ov_test_callbacks(&h.ms,&h.vf,NULL,0,memsrc_cb(&h.ms));
+        if(oret==0){ if(h.ms.n_close) res_viol("C12","closed-behind-callers-back","ov_test_callbacks ran close: %s",desc); oret=ov_test_open(&h.vf);
+          if(oret){ /* documented: a failed ov_test_open has already cleared the handle */ if(h.ms.n_close) res_viol("C12","failed-open-closed-the-source","ov_test_open failed (%d) and ran close: %s",oret,desc); memset(&h.vf,0,sizeof h.vf); } } }
+      else oret=ov_open_callbacks(&h.ms,&h.vf,NULL,0,memsrc_cb(&h.ms));
+      nruns++; res_eval(1);
       long fired_open=h.ms.f_fired; int truefail=(fk==F_READ_ERR||fk==F_SEEK_FAIL||fk==F_TELL_FAIL);
       if(!code_ok(oret)||oret>0) res_viol("C12","return-domain","open returned %d under %s@%ld: %s",oret,fault_name(fk),kk,desc);
       if(oret){
